@@ -397,7 +397,8 @@ fn drive(b: &mut Batch, r: &mut StdRng, p: &Profile, w: &mut World, n_modes: usi
             2 => {
                 if its[h].pos { continue; }
                 // 1_000_000 stands for usize::MAX ("everything that is left"; exec.rs concretises it)
-                let n = *[0usize, 1, 1, 2, 2, 3, 5, 1_000_000].choose(r).unwrap();
+                // (only on short inputs: the specification lists ALL remaining tokens for such a peek)
+                let n = if text.len() > 400 { *[0usize, 1, 1, 2, 2, 3, 5].choose(r).unwrap() } else { *[0usize, 1, 1, 2, 2, 3, 5, 1_000_000].choose(r).unwrap() };
                 (json!({"op": "peek", "it": it_id, "n": n}), Box::new(move |o| json!({"op": "peek", "it": it_id, "n": n, "kind": o["kind"], "toks": o["toks"], "target": o["target"], "mode": o["mode"]})))
             }
             3 => {
